@@ -41,7 +41,7 @@ def c20(tier):
     vlib.standard("C20", tier, "c20", CRASH_COQ + ["Properties_C20.v"], assume=CRASH_ASSUME, trusted=CRASH_TRUSTED)
 
 
-CRASH_COQ = ["Proofs_Checkers.v", "Proofs_Witnesses.v"]
+CRASH_COQ = ["Proofs_Checkers.v", "Proofs_Checkers2.v", "Proofs_Walkers.v", "Proofs_Comments.v", "Proofs_Witnesses.v"]
 FW_TRUSTED = ["go/parser, go/types, golang.org/x/tools/go/packages (loading of the corpus); the ruleguard engine and astutil.Apply are observed, not modelled",
               "harness/internal/fw: corpus loader, warning projection (offset/text/fix), structural fingerprint (unit-tested in fingerprint_test.go)"]
 
@@ -109,13 +109,14 @@ def c12(tier):
                  "Go toolchain used to compile and run the instrumented programs"])
 def c11(tier):
     vlib.standard(
-        "C11", tier, "c11", ["Properties_C11.v", "Proofs_Regex.v", "Proofs_RegexRules.v", "Proofs_RegexSimplify.v", "Proofs_RegexWalk.v"],
+        "C11", tier, "c11", ["Properties_C11.v", "Proofs_Regex.v", "Proofs_RegexRules.v", "Proofs_RegexSimplify.v", "Proofs_RegexWalk.v", "Proofs_RegexWalkS.v", "Proofs_RegexLit.v", "Proofs_RegexPrint.v", "Proofs_RegexText.v"],
         timeout=3000,
         assume=[
             "Go's regexp engine is modelled (Model_Regex.m / den), not verified: the matcher is compared with regexp.FindStringSubmatchIndex on sampled (pattern, subject) pairs on every run",
             "the third-party parser quasilyte/regex/syntax is an input of the model (its tree is dumped for every pattern and for the model's pass-1 text)",
-            "whether Go's regexp parses a rewritten TEXT to the tree the simplifier meant is not a theorem; the places where it does not are found by the oracle (re-lexing classes among the known findings)",
-            "C11_simplify_sound_partial covers trees without capture groups, flag groups and \\Q..\\E on which no prefix/suffix factoring fires; other trees rely on the per-case certificate",
+            "whether the emitted TEXT of a whole pattern is parsed back to the tree the simplifier meant is a theorem only for the two modelled sub-languages (class bodies, literal runs: Model_RegexText, tied per node to the real parser) under guards; elsewhere the places where it is not are found by the oracle (re-lexing classes among the known findings)",
+            "C11_simplify_sound_partial covers trees that elaborate (capture groups, named groups, flag groups included; not \\Q..\\E) under syntactic guards; prefix/suffix factoring only in trees without flag groups and in its sound instances; other trees rely on the per-case certificate",
+            "C11_simplify_final_sound_partial speaks about the tree whose text the checker prints after its two passes; that the parser's tree of the first pass's text means what the first pass emitted is a decidable link (same_meaning) evaluated by the kernel per case, not a theorem",
             "the matcher model is claimed to be Go's semantics only where every loop body consumes at least one rune (no empty-width cycle); patterns outside are excluded from ties, certificate and in_fragment; that the tree emitted for an in_fragment tree stays inside this domain is part of C11_simplify_sound_partial",
             "subjects are valid UTF-8; case folding is modelled for ASCII, U+212A and U+017F only; \\p{..} classes and an operator directly after a flag group are outside the model",
         ],
@@ -212,13 +213,13 @@ def c04(tier):
 
 def c09(tier):
     vlib.standard(
-        "C09", tier, "c09", ["Properties_C09.v", "Proofs_Edit.v"],
+        "C09", tier, "c09", ["Properties_C09.v", "Proofs_Edit.v", "Proofs_Prec.v", "Proofs_PrecParse.v"],
         assume=[
-            "STATED LIMIT: 'the substituted program parses and type-checks' is not a theorem (no formal Go grammar/type system is available here); it is decided per diagnostic by go/parser and go/types in the oracle",
+            "STATED LIMIT: 'the substituted program type-checks' is not a theorem (no formal Go type system here): decided per diagnostic by go/types in the oracle; 'parses as intended' is a theorem for the expression fragment of Model_Prec/Model_PrecParse only (operators, unary, selector/call/index/assertion/composite suffixes, parentheses), decided by go/parser in the oracle otherwise",
             "commentFormatting is modelled for ASCII case folding and ASCII white space",
             "quoted replacement code is recognised by per-checker message patterns of the hand-written checkers named in the property",
         ],
-        trusted=["translator vh gen suggest (Suggest templates and wildcard runs of rulesdata.PrecompiledRules)", "go/parser, go/types (source importer), astutil.PathEnclosingInterval as references"])
+        trusted=["translator vh gen suggest (Suggest templates and wildcard runs of rulesdata.PrecompiledRules)", "translator vh gen prectable (patterns/templates of the executed IR as Model_Prec trees)", "Model_PrecParse as a model of go/parser's precedence climbing (differentially tied on generated expressions each run), token adjacency not modelled", "go/parser, go/types (source importer), astutil.PathEnclosingInterval as references"])
 
 
 
